@@ -91,7 +91,8 @@ struct Info {  // static description of the zoo member the case ran on
 	uint16_t cap = 0;
 	uint8_t inj[64] = {};   // injections per state
 	uint8_t headInj = 0;
-	uint64_t bare = 0;      // states that define no callback (twin)
+	uint64_t bare = 0;      // states that do not define every callback (twins)
+	uint16_t defMask[64] = {};   // per state: which methods (bit = Meth) the state class defines
 	uint8_t hasPlans = 0, hasSerial = 0, hasHistory = 0, hasLog = 0, verbose = 0;
 	uint16_t serialBits = 0;
 	uint32_t instSize = 0;
